@@ -13,9 +13,9 @@ theorem tie (rate : Option Nat) (now : Int) :
       (fun e => evalIn (Code.ctx now) "main" "" e [("args", cliValue rate)])
     = some (driftRes ⟨[("args", cliValue rate)], []⟩ (driftPpb rate)) := by
   cases rate with
-  | none => simp [rs_eval, rs_code, cliValue, driftPpb, driftRes]
+  | none => simp [rs_eval, chkInt, rs_code, cliValue, driftPpb, driftRes]
   | some r =>
-    simp [rs_eval, rs_code, cliValue, driftPpb]
+    simp [rs_eval, chkInt, rs_code, cliValue, driftPpb]
     by_cases h : r * 1000 < 4294967296
     · have h' : (r : Int) * 1000 ≤ 4294967295 := by omega
       simp [h, h', driftRes]
